@@ -213,6 +213,33 @@ def run(ctx):
                              dict(desc, variant=name, order=order, args=more, alone=solo[i][:2], in_batch=got[pos][:2]),
                              fingerprint=['history', name])
                     break
+        # a sequence of calls sharing the caller's own argument objects: nothing the caller passed may
+        # be changed by a call, and a later call answers as if it were the first
+        cat_list = list(cats[:base.T])
+        root_list = [cats[r] for r in base.roots]
+        snap = (list(cat_list), list(root_list), [[dict(t) for t in d] for d in docs],
+                [(s.tag_scores.copy(), s.dep_scores.copy()) for s in scores])
+        order = list(range(m))
+        rng.shuffle(order)
+        try:
+            for i in order:
+                got = call([docs[i]], [scores[i]], processes=1, max_chunk_size=20, cat_list=cat_list, root_list=root_list)
+                ctx.evaluations += 1
+                now = (list(cat_list), list(root_list), [[dict(t) for t in d] for d in docs])
+                if now != snap[:3] or any((a.tag_scores != b[0]).any() or (a.dep_scores != b[1]).any() for a, b in zip(scores, snap[3])):
+                    what = ('category list' if now[0] != snap[0] else 'root list' if now[1] != snap[1] else
+                            'tokens' if now[2] != snap[2] else 'score matrices')
+                    ctx.fail(f'a call of run changed its caller\'s {what} ({len(snap[0])} -> {len(cat_list)} categories): '
+                             f'the category table must live for one call', dict(desc, order=order, at=i),
+                             fingerprint=['caller-arguments', what])
+                    break
+                if got[0] != solo[i]:
+                    ctx.fail(f'sentence {i} parsed after earlier calls (same argument objects) differs from parsing it alone',
+                             dict(desc, order=order, at=i, alone=solo[i][:2], later=got[0][:2]), fingerprint=['history', 'calls'])
+                    break
+        except Exception as e:
+            ctx.fail(f'a later call with the same argument objects raised {type(e).__name__}: {e}', dict(desc, order=order),
+                     fingerprint=['history', 'calls-raise'])
         # the model's batch driver on the same shapes
         cases.append(('runbatch', f'runbatch {m} 2 3', 'ok ' + ' '.join(str(i) for i in range(m)), [m, 2, 3]))
     # ---- shape mismatches are rejected before any parsing -----------------------------------------
